@@ -79,6 +79,18 @@ pub fn dispatch(op: &str, a: &[Term]) -> Option<Term> {
             tpolys(&poly_mod::lift_factorization::<BigInt>(&a[0].int(), a[1].u32(), &zp(&a[2]), &fs))
         }
         // ---- C12: pm_roots f p seed script
+        // the fixed-width instantiations (the library is generic over the integer type): the caller keeps (deg+1) p^2 inside
+        // the type, i.e. p < 2^31 for i64 and p < 2^63 for i128
+        "pm_roots_i64" => with_rng(&a[2], &a[3], || {
+            use num::ToPrimitive;
+            let f = rust_number_theory::polynomial::Polynomial::from_raw(a[0].ints().iter().map(|c| c.to_i64().expect("harness: coefficient does not fit i64")).collect::<Vec<i64>>());
+            tl(poly_mod::find_linear_factors::<i64>(&f, a[1].i64()).into_iter().map(ti).collect())
+        }),
+        "pm_roots_i128" => with_rng(&a[2], &a[3], || {
+            use num::ToPrimitive;
+            let f = rust_number_theory::polynomial::Polynomial::from_raw(a[0].ints().iter().map(|c| c.to_i128().expect("harness: coefficient does not fit i128")).collect::<Vec<i128>>());
+            tl(poly_mod::find_linear_factors::<i128>(&f, a[1].int().to_i128().expect("harness: p does not fit i128")).into_iter().map(ti).collect())
+        }),
         "pm_roots" => with_rng(&a[2], &a[3], || tints(&poly_mod::find_linear_factors::<BigInt>(&zp(&a[0]), a[1].int()))),
         _ => return None,
     })
